@@ -16,9 +16,15 @@ for c in man["checks"]:
         for t in getattr(m, "LEAN_TARGETS", []):
             if t not in targets:
                 targets.append(t)
-pre = getattr(common, "regenerate_all", None)
-if pre:
-    pre()
+# T-tie modules regenerated from the source (harness/released.json): function bridges and exception flow
+for m in common.fn_spec_modules():
+    if m.BRIDGE["module"] not in targets:
+        targets.append(m.BRIDGE["module"])
+if common.released().get("excflow"):
+    import excflow
+    for t in [excflow.MODULE] + sorted(excflow.MODULES.values()):
+        if t not in targets:
+            targets.append(t)
 rc, out = common.lake(["build"] + targets, timeout=7200)
 print(out[-3000:])
 print("setup: built %d lake targets, rc=%d" % (len(targets), rc))
